@@ -7,7 +7,8 @@
 
   Hypotheses `D : CipherDeps …`, `M : MacDeps` = the C04 / C05 theorems of the lower layers (see Proofs.Aead).
   The last section restates the headline theorems with `D` discharged by the delivered stream-unit theorems (both
-  engine models, key lengths 16 and 32, R ∈ {8,12,20}); `M : MacDeps` (C05 of the poly1305 unit) remains.
+  engine models, key lengths 16 and 32, R ∈ {8,12,20}) and `M` by the poly1305 unit's C05 theorem: no hypothesis beyond
+  the domain guards remains.
 
   STATED LIMIT.  The clause of C07 "changing any bit of the ciphertext, AAD, nonce or key makes it report failure"
   is NOT a theorem about this (or any) Poly1305-based AEAD: it holds up to a Poly1305 collision only.  What is
@@ -194,53 +195,73 @@ theorem accept_modified_iff_collision (D : CipherDeps E R key nonce At) (M : Mac
     (tag_length _ _ _ _ _)
   exact ⟨o, o', out, v, h1, h2, hv⟩
 
-/-! ## closed over the stream unit: hypotheses = the domain guards and `MacDeps` only -/
+/-! ## closed over the stream unit: NO hypotheses beyond the domain guards -/
 
 section closed
 open Cx.Proofs.ChaCha
 variable {α : σ → W16}
 
 /-- **C07, one-shot: `decrypt … tag = true ↔ tag = Spec.tag key nonce aad ct`** -/
-theorem aead_oneshot_verdict_iff (S : EngineSim E α) (M : MacDeps) (aad ct tag : Bytes) (ht : tag.length = 16)
+theorem aead_oneshot_verdict_iff (S : EngineSim E α) (aad ct tag : Bytes) (ht : tag.length = 16)
     (hv : Spec.Aead.Valid R key nonce aad ct) :
     ∃ o o' out v, ChaChaPoly1305.new E R key nonce aad = .ok o ∧
       ChaChaPoly1305.decrypt E R o ct ct.length tag = .ok (o', out, v) ∧
       (v = true ↔ tag = Spec.Aead.tag R key nonce aad ct) :=
-  with_cipher S hv.2.1 hv.2.2.1 hv.1 fun _ D => oneshot_verdict_iff D M aad ct tag hv.2.2.2.1 hv.2.2.2.2 ht
+  with_cipher S hv.2.1 hv.2.2.1 hv.1 fun _ D => oneshot_verdict_iff D macDeps aad ct tag hv.2.2.2.1 hv.2.2.2.2 ht
 
 /-- **C07, incremental, any partition** -/
-theorem aead_incremental_verdict_iff (S : EngineSim E α) (M : MacDeps) (as : List Bytes)
+theorem aead_incremental_verdict_iff (S : EngineSim E α) (as : List Bytes)
     (ps : List (Bytes × Bool)) (t : Bytes) (ht : t.length = 16)
     (hv : Spec.Aead.Valid R key nonce as.flatten (ps.map (·.1)).flatten) :
     ∃ outs v, runNew E R key nonce (decProg as ps t) = .ok (outs ++ [.verdict v]) ∧
       (v = true ↔ t = Spec.Aead.tag R key nonce as.flatten (ps.map (·.1)).flatten) :=
-  with_cipher S hv.2.1 hv.2.2.1 hv.1 fun _ D => incremental_verdict_iff D M as ps t ht hv.2.2.2.1 hv.2.2.2.2
+  with_cipher S hv.2.1 hv.2.2.1 hv.1 fun _ D => incremental_verdict_iff D macDeps as ps t ht hv.2.2.2.1 hv.2.2.2.2
 
 /-- **C07, both interfaces, same verdict** -/
-theorem aead_same_verdict (S : EngineSim E α) (M : MacDeps) (as : List Bytes)
+theorem aead_same_verdict (S : EngineSim E α) (as : List Bytes)
     (ps : List (Bytes × Bool)) (t : Bytes) (ht : t.length = 16)
     (hv : Spec.Aead.Valid R key nonce as.flatten (ps.map (·.1)).flatten) :
     ∃ o o' out outs v, ChaChaPoly1305.new E R key nonce as.flatten = .ok o ∧
       ChaChaPoly1305.decrypt E R o (ps.map (·.1)).flatten (ps.map (·.1)).flatten.length t = .ok (o', out, v) ∧
       runNew E R key nonce (decProg as ps t) = .ok (outs ++ [.verdict v]) :=
-  with_cipher S hv.2.1 hv.2.2.1 hv.1 fun _ D => same_verdict D M as ps t ht hv.2.2.2.1 hv.2.2.2.2
+  with_cipher S hv.2.1 hv.2.2.1 hv.1 fun _ D => same_verdict D macDeps as ps t ht hv.2.2.2.1 hv.2.2.2.2
 
 /-- **C07, every one of the 128 tag bits**, one-shot -/
-theorem aead_tag_bitflip_rejected_oneshot (S : EngineSim E α) (M : MacDeps) (aad ct : Bytes)
+theorem aead_tag_bitflip_rejected_oneshot (S : EngineSim E α) (aad ct : Bytes)
     (hv : Spec.Aead.Valid R key nonce aad ct) (i : Nat) (hi : i < 128) :
     ∃ o o' out, ChaChaPoly1305.new E R key nonce aad = .ok o ∧
       ChaChaPoly1305.decrypt E R o ct ct.length (flipBit (Spec.Aead.tag R key nonce aad ct) i) = .ok (o', out, false) :=
-  with_cipher S hv.2.1 hv.2.2.1 hv.1 fun _ D => tag_bitflip_rejected_oneshot D M aad ct hv.2.2.2.1 hv.2.2.2.2 i hi
+  with_cipher S hv.2.1 hv.2.2.1 hv.1 fun _ D => tag_bitflip_rejected_oneshot D macDeps aad ct hv.2.2.2.1 hv.2.2.2.2 i hi
 
 /-- **C07, every one of the 128 tag bits**, incremental, any partition -/
-theorem aead_tag_bitflip_rejected_incremental (S : EngineSim E α) (M : MacDeps) (as : List Bytes)
+theorem aead_tag_bitflip_rejected_incremental (S : EngineSim E α) (as : List Bytes)
     (ps : List (Bytes × Bool)) (hv : Spec.Aead.Valid R key nonce as.flatten (ps.map (·.1)).flatten)
     (i : Nat) (hi : i < 128) :
     ∃ outs, runNew E R key nonce
         (decProg as ps (flipBit (Spec.Aead.tag R key nonce as.flatten (ps.map (·.1)).flatten) i)) =
       .ok (outs ++ [.verdict false]) :=
   with_cipher S hv.2.1 hv.2.2.1 hv.1 fun _ D =>
-    tag_bitflip_rejected_incremental D M as ps hv.2.2.2.1 hv.2.2.2.2 i hi
+    tag_bitflip_rejected_incremental D macDeps as ps hv.2.2.2.1 hv.2.2.2.2 i hi
+
+/-- **C07, any tag other than the RFC tag is rejected** -/
+theorem aead_wrong_tag_rejected (S : EngineSim E α) (aad ct tag : Bytes) (ht : tag.length = 16)
+    (hv : Spec.Aead.Valid R key nonce aad ct) (hne : tag ≠ Spec.Aead.tag R key nonce aad ct) :
+    ∃ o o' out, ChaChaPoly1305.new E R key nonce aad = .ok o ∧
+      ChaChaPoly1305.decrypt E R o ct ct.length tag = .ok (o', out, false) :=
+  with_cipher S hv.2.1 hv.2.2.1 hv.1 fun _ D => wrong_tag_rejected D macDeps aad ct tag hv.2.2.2.1 hv.2.2.2.2 ht hne
+
+/-- **C07, the stated limit**: a modified (aad', ct') with the tag of (aad, ct) is accepted iff Poly1305 collides
+    under the one-time key on the two (different) authenticated strings -/
+theorem aead_accept_modified_iff_collision (S : EngineSim E α) (aad ct aad' ct' : Bytes)
+    (hv : Spec.Aead.Valid R key nonce aad ct) (hv' : Spec.Aead.Valid R key nonce aad' ct')
+    (hne : aad ≠ aad' ∨ ct ≠ ct') :
+    Spec.Aead.macData aad ct ≠ Spec.Aead.macData aad' ct' ∧
+    ∃ o o' out v, ChaChaPoly1305.new E R key nonce aad' = .ok o ∧
+      ChaChaPoly1305.decrypt E R o ct' ct'.length (Spec.Aead.tag R key nonce aad ct) = .ok (o', out, v) ∧
+      (v = true ↔ Spec.Poly1305.mac (Spec.Aead.polyKeyGen R key nonce) (Spec.Aead.macData aad ct) =
+                  Spec.Poly1305.mac (Spec.Aead.polyKeyGen R key nonce) (Spec.Aead.macData aad' ct')) :=
+  with_cipher S hv.2.1 hv.2.2.1 hv.1 fun _ D =>
+    accept_modified_iff_collision D macDeps aad ct aad' ct' hv.2.2.2.1 hv.2.2.2.2 hv'.2.2.2.1 hv'.2.2.2.2 hne
 
 end closed
 
